@@ -284,3 +284,65 @@ func mintedIncrement(w *World, mint *ssa.Function) (ssa.Value, ssa.Instruction, 
 	}
 	return amount, at, n
 }
+
+// DeepVal is a value that can reach a use under an assumption, found in the function of the use or - when the use's
+// operand is the result of a module helper - in that helper (explored under the same assumption, translated).
+type DeepVal struct {
+	V    ssa.Value // the value, in the function that computes it
+	Ctx  *tctx     // the tracer context of that function (entered from the root along the helper calls)
+	Root ssa.Value // V in the root function's terms (helper parameters replaced by the arguments handed down)
+}
+
+// Origins traces the value in its context.
+func (d DeepVal) Origins(t *Tracer) *Origin {
+	st := &tstate{t: t, o: newOrigin(), seen: map[string]bool{}}
+	st.trace(d.V, nil, d.Ctx)
+	return st.o
+}
+
+// LiveValuesDeep: the values operand v of function fn can take under the assumption eval: phis are expanded along
+// live edges; the result of a static module helper is replaced by the helper's live results under the assumption
+// translated into the helper (depth levels).
+func (w *World) LiveValuesDeep(fn *ssa.Function, eval CondFn, v ssa.Value, depth int) []DeepVal {
+	var out []DeepVal
+	var walk func(fn *ssa.Function, eval CondFn, v ssa.Value, ctx *tctx, toRoot func(ssa.Value) ssa.Value, depth int)
+	walk = func(fn *ssa.Function, eval CondFn, v ssa.Value, ctx *tctx, toRoot func(ssa.Value) ssa.Value, depth int) {
+		live := ReachUnder(fn, eval)
+		for _, x := range live.LiveValues(v) {
+			var call *ssa.Call
+			idx := 0
+			switch y := x.(type) {
+			case *ssa.Call:
+				call = y
+			case *ssa.Extract:
+				call, _ = y.Tuple.(*ssa.Call)
+				idx = y.Index
+			}
+			if call != nil && depth > 0 && !call.Common().IsInvoke() {
+				if h := call.Common().StaticCallee(); h != nil && h.Blocks != nil && w.isProdFunc(h) && h != fn && !isGeneratedFile(w.FileOf(h.Pos())) {
+					bind := bindParams(h, call)
+					hctx := &tctx{parent: ctx, fn: h, call: call.Common(), depth: ctx.depth + 1}
+					hRoot := func(u ssa.Value) ssa.Value { return toRoot(translateValue(u, bind, 0)) }
+					hl := ReachUnder(h, liftEval(eval, h, call))
+					n := 0
+					for _, ret := range Returns(h) {
+						if !hl.Blocks[ret.Block()] {
+							continue
+						}
+						rv := retVals(ret)
+						if idx < len(rv) {
+							n++
+							walk(h, liftEval(eval, h, call), rv[idx], hctx, hRoot, depth-1)
+						}
+					}
+					if n > 0 {
+						continue
+					}
+				}
+			}
+			out = append(out, DeepVal{V: x, Ctx: ctx, Root: toRoot(x)})
+		}
+	}
+	walk(fn, eval, v, &tctx{fn: fn}, func(u ssa.Value) ssa.Value { return u }, depth)
+	return out
+}
